@@ -540,9 +540,10 @@ def check(pid, tier):
             if hang:
                 p = write_replay(rundir, pid, 0, {"property": pid, "kind": "oracle-failure", "case": hang,
                                                   "what": "the implementation did not terminate on this case within the watchdog limit (hang)"})
-            elif crashed_on and r.returncode < 0:
+            elif crashed_on:
+                how = f"was killed by signal {-r.returncode}" if r.returncode < 0 else f"died with exit status {r.returncode}"
                 p = write_replay(rundir, pid, 0, {"property": pid, "kind": "oracle-failure", "case": crashed_on,
-                                                  "what": f"the process running the implementation was killed by signal {-r.returncode} while executing this case (stack overflow or abort inside the library)",
+                                                  "what": f"the process running the implementation {how} while executing this case (stack overflow, abort or a panic outside the guarded call, inside the library)",
                                                   "output": (r.stdout or "")[-1500:]})
             else:
                 p = write_replay(rundir, pid, 0, {"property": pid, "kind": "harness-crash", "returncode": r.returncode,
